@@ -33,6 +33,9 @@ pub struct Case {
     pub zstd: bool,
     /// Fail the producer after this many logical bytes (reader/writer kinds only).
     pub fail_after: Option<usize>,
+    /// The injected producer failure is a panic instead of an `Err` return.
+    #[serde(default)]
+    pub fail_by_panic: bool,
     /// Consumer yields between `next`s (0 = none).
     pub pace: u8,
     /// After how many chunks to issue a cancel instead of continuing (None = drain).
@@ -82,6 +85,7 @@ struct FailingReader {
     pos: usize,
     short: usize,
     fail_after: Option<usize>,
+    panic: bool,
 }
 
 impl Read for FailingReader {
@@ -89,6 +93,9 @@ impl Read for FailingReader {
         if let Some(f) = self.fail_after
             && self.pos >= f
         {
+            if self.panic {
+                panic!("injected producer panic");
+            }
             return Err(std::io::Error::other("injected producer failure"));
         }
         let mut n = out.len().min(self.data.len() - self.pos);
@@ -169,6 +176,7 @@ pub fn router_for(c: &Case) -> Router {
                     pos: 0,
                     short: short as usize,
                     fail_after: c2.fail_after,
+                    panic: c2.fail_by_panic,
                 })
             },
             o,
@@ -186,6 +194,9 @@ pub fn router_for(c: &Case) -> Router {
                             if let Some(f) = c3.fail_after
                                 && pos >= f
                             {
+                                if c3.fail_by_panic {
+                                    panic!("injected producer panic");
+                                }
                                 return Err(std::io::Error::other("injected producer failure"));
                             }
                             // varying piece sizes around `piece`
@@ -519,6 +530,7 @@ pub fn case() -> BoxedStrategy<Case> {
                 depth,
                 zstd,
                 fail_after,
+                fail_by_panic: fail_after.is_some() && (fsel >> 12) % 3 == 0,
                 pace,
                 cancel_after: if fail_after.is_some() { None } else { cancel_after },
             }
